@@ -6,6 +6,7 @@ PYTHONPATH=<repo>:/verif:
 
     python -m standins.codec_checks <check> --tier quick|thorough --seed N --out file.json
 """
+from standins import guard
 import argparse
 import io
 import json
@@ -563,7 +564,10 @@ def _run_chunk(args):
     for T, v in pairs:
         for nm in names:
             try:
-                f, n = CHECKS[nm](T, v, M)
+                with guard.time_limit(guard.CASE_SECONDS):
+                    f, n = CHECKS[nm](T, v, M)
+            except guard.CaseTimeout:
+                f, n = [fail(nm, T, v, 'does not terminate within %d s on this case' % guard.CASE_SECONDS)], 1
             except Exception as ex:
                 f, n = [fail(nm, T, v, 'harness error %s: %s' % (type(ex).__name__, ex),
                              trace=traceback.format_exc()[-800:], harness_error=True)], 1
